@@ -1346,6 +1346,86 @@ fn sentence(rng: &mut Rng, kind: u64) -> Vec<String> {
     s.t
 }
 
+/// A small type together with a value text that follows its structure (records with some fields left out,
+/// one variant case, options, vectors), so that the annotation step after parsing is reached with matching
+/// shapes; identifiers in the type are unbound on purpose in some positions.
+fn typed_value(rng: &mut Rng, d: usize) -> (String, String) {
+    let prims: [(&str, &str); 8] = [
+        ("nat", "42"),
+        ("int", "-7"),
+        ("text", "\"x\""),
+        ("bool", "true"),
+        ("null", "null"),
+        ("nat8", "300"),
+        ("float64", "1.5"),
+        ("principal", "principal \"aaaaa-aa\""),
+    ];
+    let k = if d == 0 { rng.below(3) } else { rng.below(10) };
+    match k {
+        0 | 1 => {
+            let (t, v) = *rng.pick(&prims);
+            (t.to_string(), v.to_string())
+        }
+        2 => {
+            // an identifier nobody defines; the value is anything
+            let id = *rng.pick(&["T", "U", "Node", "list", "t_1"]);
+            let v = *rng.pick(&["1", "null", "record {}", "\"s\"", "vec {}", "opt 1", "variant { a }"]);
+            (id.to_string(), v.to_string())
+        }
+        3 => {
+            let (t, v) = typed_value(rng, d - 1);
+            let v = match rng.below(4) {
+                0 => "null".to_string(),
+                1 => v,
+                _ => format!("opt {v}"),
+            };
+            (format!("opt {t}"), v)
+        }
+        4 => {
+            let (t, v) = typed_value(rng, d - 1);
+            let n = rng.usize(3);
+            (format!("vec {t}"), format!("vec {{ {} }}", vec![v; n].join("; ")))
+        }
+        5 | 6 | 7 => {
+            let n = rng.usize(4);
+            let names = ["a", "b", "c", "d", "e"];
+            let mut ts = Vec::new();
+            let mut vs = Vec::new();
+            for i in 0..n {
+                let (t, v) = typed_value(rng, d - 1);
+                ts.push(format!("{} : {t}", names[i]));
+                // leave fields out: the annotation has to supply null / opt / reserved ones and reject the rest
+                if !rng.chance(1, 3) {
+                    vs.push(format!("{} = {v}", names[i]));
+                }
+            }
+            if rng.chance(1, 4) {
+                vs.reverse();
+            }
+            (format!("record {{ {} }}", ts.join("; ")), format!("record {{ {} }}", vs.join("; ")))
+        }
+        8 => {
+            let n = 1 + rng.usize(3);
+            let names = ["a", "b", "c", "d"];
+            let mut ts = Vec::new();
+            let pick = rng.usize(n + 1);
+            let mut val = "variant { zz }".to_string();
+            for i in 0..n {
+                let (t, v) = typed_value(rng, d - 1);
+                ts.push(format!("{} : {t}", names[i]));
+                if i == pick {
+                    val = format!("variant {{ {} = {v} }}", names[i]);
+                }
+            }
+            (format!("variant {{ {} }}", ts.join("; ")), val)
+        }
+        _ => {
+            let (t, _) = typed_value(rng, d - 1);
+            (format!("func ({t}) -> ()"), "func \"aaaaa-aa\".m".to_string())
+        }
+    }
+}
+
 fn numeral_templates(rng: &mut Rng) -> String {
     let n = rng.pick(NUMERALS).to_string();
     let m = rng.pick(NUMERALS).to_string();
@@ -1521,7 +1601,7 @@ pub fn run(ctx: &mut Ctx) {
         let s = numeral_templates(rng);
         check_input(ctx, &s, "witnesses", &mut seen);
     });
-    ctx.cases("token-soup", 0.22, |ctx, rng| {
+    ctx.cases("token-soup", 0.20, |ctx, rng| {
         let cap = if rng.chance(1, 5) { 40 } else if ctx.thorough() { 24 } else { 12 };
         let n = 1 + rng.usize(cap);
         let toks: Vec<String> = (0..n).map(|_| gen_token(rng)).collect();
@@ -1535,7 +1615,7 @@ pub fn run(ctx: &mut Ctx) {
         ctx.count(&format!("cover:sentence-kind:{kind}"));
         check_input(ctx, &s, "valid-sentences", &mut seen);
     });
-    ctx.cases("one-token-mutants", 0.3, |ctx, rng| {
+    ctx.cases("one-token-mutants", 0.26, |ctx, rng| {
         let kind = rng.below(7);
         let mut toks = sentence(rng, kind);
         let m = mutate(rng, &mut toks);
@@ -1545,6 +1625,26 @@ pub fn run(ctx: &mut Ctx) {
         ctx.count(&format!("cover:mutation:{m}"));
         let s = join(rng, &toks);
         check_input(ctx, &s, "one-token-mutants", &mut seen);
+    });
+    ctx.cases("values-annotated-with-a-matching-type", 0.06, |ctx, rng| {
+        let n = 1 + rng.usize(2);
+        let mut pairs: Vec<(String, String)> = Vec::new();
+        for _ in 0..n {
+            let d = 1 + rng.usize(3);
+            pairs.push(typed_value(rng, d));
+        }
+        let annotated: Vec<String> = pairs.iter().map(|(t, v)| format!("{v} : {t}")).collect();
+        let s = match rng.below(5) {
+            0 => annotated[0].clone(),
+            1 => {
+                // the test-script form: a textual argument list checked against a type list
+                let vals: Vec<String> = pairs.iter().map(|(_, v)| v.replace('\\', "\\\\").replace('"', "\\\"")).collect();
+                let tys: Vec<String> = pairs.iter().map(|(t, _)| t.clone()).collect();
+                format!("assert \"({})\" : ({});", vals.join(", "), tys.join(", "))
+            }
+            _ => format!("({})", annotated.join(", ")),
+        };
+        check_input(ctx, &s, "values-annotated-with-a-matching-type", &mut seen);
     });
     ctx.cases("boundary-numerals", 0.1, |ctx, rng| {
         let s = numeral_templates(rng);
